@@ -86,6 +86,8 @@ type Machine struct {
 	globals map[*ssa.Global]*value
 
 	OrderMode bool
+	blocks    map[*ssa.BasicBlock]struct{} // coverage, merged into Shared when the worker ends
+	finfo     map[*ssa.Function]*funcInfo
 
 	prefix    []int32
 	decisions []int32
@@ -132,7 +134,8 @@ type Machine struct {
 var defaultTokens = []string{"s0", "s1", "s2", "s3"}
 
 func NewMachine(sh *Shared, cfg Config, solver *sym.Solver) *Machine {
-	return &Machine{prog: sh.Prog, shared: sh, cfg: cfg, solver: solver, OrderMode: cfg.OrderMode}
+	return &Machine{prog: sh.Prog, shared: sh, cfg: cfg, solver: solver, OrderMode: cfg.OrderMode,
+		blocks: map[*ssa.BasicBlock]struct{}{}, finfo: map[*ssa.Function]*funcInfo{}}
 }
 
 func (m *Machine) resetPath(prefix []int32) {
